@@ -1025,6 +1025,44 @@ example : ({ clients := [⟨List.replicate 16 0, 0, true⟩] } : Cfg).clientElig
 example : ({ clients := [⟨List.replicate 16 0, 0, true⟩] } : Cfg).clientEligible
     [0x20, 1, 0xd, 0xb8, 0, 0, 0, 0, 0, 0, 0, 0, 0, 0, 0, 9] = true := by decide
 
+/-- **The secondary lookup is a validated one.** Whenever DNS64 issues a
+sub-query (A lookup or PTR chase) the client asked with CD = 0, and the
+sub-query's CD bit — the client's, nothing else — is clear: an A RRset that
+fails validation surfaces as the A-side failure, it is never embedded. -/
+theorem secondary_lookup_is_validated (c : Cfg) (q : Query) (down : Option Down) (a : AResp)
+    (h : (serve c q down a).aq ≠ 0) : q.cd = false ∧ subQueryCD q (serve c q down a).aq = false := by
+  have hcd : q.cd = false := by
+    rcases serve_cases c q down a with hs | ⟨m, _, hs⟩ | ⟨hg, _, _, _, _, _⟩ | ⟨hg, _, _, _⟩
+    · rw [hs] at h; simp at h
+    · rw [hs] at h; simp [passReply] at h
+    · unfold gate at hg
+      by_cases h2 : (q.twoQ && !q.wire) = true
+      · simp [h2] at hg
+      simp only [h2, if_false] at hg
+      by_cases h1 : q.qclass = 1 <;> simp [h1] at hg
+      cases hi : q.internal <;> simp [hi] at hg
+      cases hr : q.rd <;> simp [hr] at hg
+      cases hc : q.cd <;> simp [hc] at hg
+      rfl
+    · exact ((gate_wrap_iff c q).mp hg).2.2.2.2.1
+  exact ⟨hcd, by simp [subQueryCD, hcd]⟩
+
+/-- **Replies are history-free.** The reply to a request is a function of the
+compiled configuration and that request alone: whatever was served before on
+the same instance (pooled writers included) changes nothing. -/
+theorem replies_are_history_free (c : Cfg) (hist₁ hist₂ : List (Query × Option Down × AResp))
+    (r : Query × Option Down × AResp) :
+    ((hist₁ ++ [r]).map fun x => serve c x.1 x.2.1 x.2.2).getLast? =
+    ((hist₂ ++ [r]).map fun x => serve c x.1 x.2.1 x.2.2).getLast? := by
+  simp
+
+-- nested prefixes, the shorter one first: the /96 embedding is not conformant under the /32
+-- (non-zero suffix), the loop goes on to the /96 and translates
+example : ptrV4 { prefixes := [⟨⟨[0x20, 1, 0xd, 0xb8, 0, 0, 0, 0, 0, 0, 0, 0, 0, 0, 0, 0], 32, true⟩, false⟩,
+                               ⟨⟨[0x20, 1, 0xd, 0xb8, 0, 0, 0, 0, 0, 0, 0, 0, 0, 0, 0, 0], 96, true⟩, false⟩] }
+    (embedIPv4 [0x20, 1, 0xd, 0xb8, 0, 0, 0, 0, 0, 0, 0, 0, 0, 0, 0, 0] 96 [192, 0, 2, 33]) = some [192, 0, 2, 33] := by
+  decide
+
 /-! ## configuration corners: networks bit by bit, zone text, where the well-known prefix sits -/
 
 /-- **CIDR membership is "the first `bits` bits agree"** — IPv4 network, IPv4 source. -/
